@@ -233,8 +233,9 @@ func scenarioC03(r *Run) {
 		rc.SetPayload(override)
 	}
 	vs := make([]cose.Verifier, len(keys))
+	viaDir := t.Bool(1, 4, "c03.viadir") // verifiers obtained from the key directory (COSE_Keys filed under ids of its own)
 	for i, k := range keys {
-		vs[i] = r.verifierFor(k, false)
+		vs[i] = r.verifierFor(k, viaDir)
 	}
 	var lib error
 	lib = r.VerifyLib(rc, external, vs...)
